@@ -20,7 +20,7 @@ vars == <<l, pre, st, aux>>
 
 Blank == InitState(<<>>, {}, "A")
 
-NoAux == [infrag |-> FALSE, seq |-> <<>>, stuck |-> FALSE, joinfree |-> FALSE, feats |-> {}]
+NoAux == [infrag |-> FALSE, seq |-> <<>>, str |-> <<>>, stuck |-> FALSE, joinfree |-> FALSE, feats |-> {}]
 Init == l = 1 /\ pre = Blank /\ st = Blank /\ aux = NoAux
 
 ResIds(e) == {e.res[i].id : i \in 1..Len(e.res)}
@@ -38,7 +38,7 @@ EvReset ==
     /\ st' = InitState(e.script, SeqToSet(e.peers), e.init)
     /\ pre' = st'
     /\ aux' = IF InFragment(e.script, FALSE)
-              THEN LET r == SeqRun(e.script, e.init) IN [infrag |-> TRUE, seq |-> r.calls, stuck |-> r.stuck, joinfree |-> e.joinfree, feats |-> SeqToSet(e.feats)]
+              THEN LET r == SeqRun(e.script, e.init) IN [infrag |-> TRUE, seq |-> r.calls, str |-> r.tr, stuck |-> r.stuck, joinfree |-> e.joinfree, feats |-> SeqToSet(e.feats)]
               ELSE [NoAux EXCEPT !.joinfree = e.joinfree, !.feats = SeqToSet(e.feats)]
 
 EvRun ==
@@ -81,7 +81,11 @@ IssuedKeys(p, withTets) ==
 SeqKeys(withTets) ==
     IF withTets THEN BagOfSeq(aux.seq, LAMBDA c : <<c.p, c.srv, c.fn, c.args, c.tets>>)
     ELSE BagOfSeq(aux.seq, LAMBDA c : <<c.p, c.srv, c.fn, c.args>>)
-InvC16 == (IsRun /\ aux.infrag /\ ~aux.stuck) => Report("C16", BagSubset(IssuedKeys(Last.peer, FALSE), SeqKeys(FALSE)))
+\* ... and no peer takes a branch or runs an iteration the sequential reading does not reach: the trace it returns
+\* follows the sequential trace block by block (SeqSem!FollowsSequential)
+InvC16 == (IsRun /\ aux.infrag /\ ~aux.stuck) =>
+    /\ Report("C16", BagSubset(IssuedKeys(Last.peer, FALSE), SeqKeys(FALSE)))
+    /\ ((Last.out.died = "" /\ ReturnsNewData(Last.out.code)) => Report("C16", FollowsSequential(Last.out.data.trace, aux.str)))
 \* C17: each request of this run carries the tetraplets the sequential reading predicts (a request is
 \* compared with the sequential calls of the same peer, service, function and arguments).
 \* Known finding "functor-length": for an argument `x.length` the implementation hands out ("", "", "", ".length"),
